@@ -132,15 +132,16 @@ extern "C" void h_c07_closest(unsigned long n, unsigned long same_bucket) {
     PeerId ids[4]; long long exp[4];
     for (unsigned i = 0; i < n; ++i) {
         ids[i] = self_id();
-        ids[i][0] ^= static_cast<std::uint8_t>(same_bucket == 1 ? 0x80 : same_bucket == 2 ? (0x40 >> i) : (0x80 >> i));   // 2: buckets below the top one (a target in the top bucket has them all in one distance band)
-        ids[i][30] = nondet_u8("id30"); ids[i][31] = nondet_u8("id31");
+        ids[i][0] ^= static_cast<std::uint8_t>(same_bucket == 1 ? 0x80 : (same_bucket == 2 || same_bucket == 3) ? (0x40 >> i) : (0x80 >> i));   // 2: buckets below the top one (a target in the top bucket has them all in one distance band)
+        if (same_bucket == 3) { ids[i][30] = static_cast<std::uint8_t>(0x11 * (i + 1)); ids[i][31] = static_cast<std::uint8_t>(7 * i + 3); }   /* 3: everything about the contacts is concrete, only target and limit are symbolic (cheap) */
+        else { ids[i][30] = nondet_u8("id30"); ids[i][31] = nondet_u8("id31"); }
         for (unsigned j = 0; j < i; ++j) verif_assume(ids[i] != ids[j]);
-        const std::uint32_t e = nondet_u32("expires_s"); verif_assume(e >= 4990 && e <= 5010);
+        const std::uint32_t e = same_bucket == 3 ? 5010u : nondet_u32("expires_s"); verif_assume(e >= 4990 && e <= 5010);
         exp[i] = static_cast<long long>(e) * kNs;
         PeerContact c{}; c.id = ids[i]; c.address = "h"; c.expires_at = std::chrono::steady_clock::time_point(std::chrono::nanoseconds(exp[i]));
         table.register_peer(c);
     }
-    const std::uint32_t later = nondet_u32("query_s"); verif_assume(later >= 5000 && later <= 5012);
+    const std::uint32_t later = same_bucket == 3 ? 5000u : nondet_u32("query_s"); verif_assume(later >= 5000 && later <= 5012);
     verif_env::g_steady_ns = static_cast<long long>(later) * kNs;
     const long long now = verif_env::g_steady_ns;
     PeerId target = self_id(); target[0] = nondet_u8("t0"); target[30] = nondet_u8("t30"); target[31] = nondet_u8("t31");
